@@ -8,6 +8,7 @@ import (
 
 	"golang.org/x/tools/go/ssa"
 
+	"ivgsa/internal/poly"
 	"ivgsa/internal/sym"
 )
 
@@ -348,11 +349,14 @@ func ruleC01_1(c *Ctx) {
 			continue
 		}
 		li, okl := encodes[0].Loops[1].Frame.Loop(encodes[0].Loops[1].Header)
-		if !okl || li.Step != -1 || li.Op.String() != ">" || li.Bound.Key() != "0" || li.Offset != 0 {
-			R.Unknown(key+":loop", pos, "inner loop is not 'for j := count; j > 0; j--'")
+		okTrip := false
+		if okl {
+			tripT, okTrip = innerTrip(li)
+		}
+		if !okl || !okTrip {
+			R.Unknown(key+":loop", pos, "inner loop is not a counted loop with unit step (for j := count; j > 0; j-- / for j := 0; j < count; j++ / range over a slice)")
 			continue
 		}
-		tripT = li.Init
 		// kinds per iteration
 		var wkinds []string
 		for _, ev := range encodes {
@@ -361,6 +365,26 @@ func ruleC01_1(c *Ctx) {
 		// index discipline: operand t of an iteration reads drawArgs[i+t]
 		iAtom, offsets, why := argIndexes(encodes)
 		okIdx := why == ""
+		if !okIdx && perIter == 1 {
+			// the same discipline written as a range over the window drawArgs[i:end] followed by i = end
+			if lo, okR := rangeWindow(encodes[0], li); okR {
+				why = ""
+				if op := phiOfAtom(run.fr, lo); op != nil {
+					oi, ob := phiEdges(run.fr, op)
+					switch {
+					case len(oi) != 1 || oi[0].Key() != "0":
+						why = "the argument index does not start at 0"
+					case len(ob) != 1 || !sameInt(ob[0], sym.Bin(tokADD, lo, li.Bound, types.Typ[types.Int])):
+						why = "the next chunk does not start where this window ends: " + argKeys(ob)
+					}
+				} else {
+					why = "the window does not start at a chunk counter"
+				}
+				R.Use("C01.2")
+				R.Check(why == "", key+":sequential", pos, "operands are read from the buffered arguments sequentially, without gaps or overlaps", why)
+				goto counted
+			}
+		}
 		if okIdx {
 			for t, off := range offsets {
 				if off != int64(t) {
@@ -395,6 +419,7 @@ func ruleC01_1(c *Ctx) {
 		}
 		R.Use("C01.2")
 		R.Check(okIdx, key+":sequential", pos, "operands are read from the buffered arguments sequentially, without gaps or overlaps", why)
+	counted:
 		// n counts whole operations and decreases by the chunk size
 		if phi := phiOfAtom(run.fr, nAtom); phi != nil {
 			init, back := phiEdges(run.fr, phi)
@@ -660,4 +685,64 @@ func foldFloatInt(t *sym.Term) (int64, bool) {
 		}
 	}
 	return 0, false
+}
+
+// innerTrip returns the trip count of a unit-step counted loop as a term.
+func innerTrip(li *sym.LoopInfo) (*sym.Term, bool) {
+	switch {
+	case li.Step == -1 && li.Op.String() == ">" && li.Bound.Key() == "0" && li.Offset == 0:
+		return li.Init, true
+	case li.Step == 1 && li.Op.String() == "<":
+		if i0, ok := li.Init.Int64(); ok {
+			if i0+li.Offset == 0 {
+				return li.Bound, true
+			}
+			return sym.Bin(tokSUB, li.Bound, sym.Int(i0+li.Offset), types.Typ[types.Int]), true
+		}
+	}
+	return nil, false
+}
+
+// rangeWindow recognises an operand read as element j of a window of the argument buffer that starts at the chunk
+// counter lo, j being the index of the loop (one operand per iteration, starting at 0): base[lo+j], or
+// base[lo:hi][j] before simplification. It returns lo; the window's length is the loop's bound.
+func rangeWindow(ev *sym.Event, li *sym.LoopInfo) (lo *sym.Term, ok bool) {
+	v := ev.Args[1]
+	for {
+		if v.Op == "call" && v.Name == "quantize" && len(v.Args) == 2 {
+			v = v.Args[1]
+			continue
+		}
+		if v.Op == "conv" {
+			v = v.Args[0]
+			continue
+		}
+		break
+	}
+	if i0, isC := li.Init.Int64(); !isC || i0+li.Offset != 0 || li.Step != 1 || li.Op.String() != "<" {
+		return nil, false
+	}
+	if v.Op != "index" {
+		return nil, false
+	}
+	idx := v.Args[1]
+	if idx.Op == "bin" && idx.Name == "+" {
+		a, b := idx.Args[0], idx.Args[1]
+		if sym.Eq(b, li.IndexVal) && a.Op == "atom" {
+			return a, true
+		}
+		if sym.Eq(a, li.IndexVal) && b.Op == "atom" {
+			return b, true
+		}
+	}
+	return nil, false
+}
+
+// sameInt decides a == b for integer terms by polynomial normal form (gated joins kept as atoms).
+func sameInt(a, b *sym.Term) bool {
+	env := poly.NewEnv()
+	env.IteAsAtom = true
+	x, ok1 := env.One(a)
+	y, ok2 := env.One(b)
+	return ok1 && ok2 && x.Equal(y)
 }
